@@ -42,6 +42,8 @@ var lifeSQL = map[string]string{
 	"ptumble":       "SELECT g, count(*) AS c FROM stream GROUP BY g, TumblingWindow('15ms')",
 	"pslide":        "SELECT g, count(*) AS c FROM stream GROUP BY g, SlidingWindow('30ms','10ms')",
 	"psession":      "SELECT g, count(*) AS c FROM stream GROUP BY g, SessionWindow('10ms')",
+	"hop_idle":      "SELECT g, count(*) AS c FROM stream GROUP BY g, SlidingWindow('1s','3s') WITH (TIMESTAMP='ts', TIMEUNIT='ms', IDLETIMEOUT='50ms')",
+	"hop":           "SELECT g, count(*) AS c FROM stream GROUP BY g, SlidingWindow('1s','3s') WITH (TIMESTAMP='ts', TIMEUNIT='ms')",
 	"slide_idle":    "SELECT g, count(*) AS c FROM stream GROUP BY g, SlidingWindow('2s','1s') WITH (TIMESTAMP='ts', TIMEUNIT='ms', IDLETIMEOUT='50ms')",
 	"boom_direct":   "SELECT id, vboom(v) AS b FROM stream",
 	"boom_where":    "SELECT id FROM stream WHERE vboom(v) > -5",
@@ -433,6 +435,33 @@ func RunLife(sc LifeScenario) (evs []Ev, inconclusive string) {
 		done := make(chan struct{})
 		go func() {
 			guard("Emit", func() { s.Emit(row(7)) })
+			stop(1)
+			close(done)
+		}()
+		select {
+		case <-done:
+		case <-time.After(20 * time.Second):
+			log(Ev{"e": "deadlock", "q": atomic.AddInt64(&seq, 1)})
+			<-done
+		}
+	case "clockjump":
+		// historic event timestamps (1970), then the source switches to real time: the watermark jumps decades ahead of the window
+		// cursor while rows that no pending window covers may still be buffered; the engine must stay responsive (Emit, Stop)
+		for i := 1; i <= 6; i++ {
+			guard("Emit", func() { s.Emit(row(i)) })
+		}
+		now := time.Now().UnixMilli()
+		for i := 7; i <= 9; i++ {
+			r := row(i)
+			r["ts"] = now + int64(i*200)
+			guard("Emit", func() { s.Emit(r) })
+		}
+		time.Sleep(300 * time.Millisecond)
+		done := make(chan struct{})
+		go func() {
+			r := row(10)
+			r["ts"] = now + 5000
+			guard("Emit", func() { s.Emit(r) })
 			stop(1)
 			close(done)
 		}()
